@@ -76,10 +76,15 @@ Definition sqrt_hi (k : positive) (x : Q) : Q :=
 
 Definition dist2 (p q : qpt) : Q := (fst q - fst p) * (fst q - fst p) + (snd q - snd p) * (snd q - snd p).
 
+(** sums are kept in lowest terms ([Qred]): Coq's Q does not normalise and denominators would multiply up *)
+Definition qadd (a b : Q) : Q := Qred (a + b).
+Definition qred_pt (p : qpt) : qpt := (Qred (fst p), Qred (snd p)).
+Definition qsumr (l : list Q) : Q := fold_right qadd 0 l.
+
 Fixpoint polyline_lo (k : positive) (l : list qpt) : Q :=
-  match l with a :: ((b :: _) as r) => sqrt_lo k (dist2 a b) + polyline_lo k r | _ => 0 end.
+  match l with a :: ((b :: _) as r) => qadd (sqrt_lo k (Qred (dist2 a b))) (polyline_lo k r) | _ => 0 end.
 Fixpoint polyline_hi (k : positive) (l : list qpt) : Q :=
-  match l with a :: ((b :: _) as r) => sqrt_hi k (dist2 a b) + polyline_hi k r | _ => 0 end.
+  match l with a :: ((b :: _) as r) => qadd (sqrt_hi k (Qred (dist2 a b))) (polyline_hi k r) | _ => 0 end.
 
 (* ---- enclosures ------------------------------------------------------------------------------- *)
 
@@ -89,17 +94,17 @@ Fixpoint steps (n : nat) : list nat := match n with O => [O] | S m => steps m ++
 
 (** inscribed polyline through B(j/N), j = 0..N *)
 Definition inscribed (ctrl : list qpt) (N : nat) : list qpt :=
-  map (fun j => bez_pt ctrl (inject_Z (Z.of_nat j) / inject_Z (Z.of_nat N))) (steps N).
+  map (fun j => qred_pt (bez_pt ctrl (inject_Z (Z.of_nat j) / inject_Z (Z.of_nat N)))) (steps N).
 
 (** control polygons of the N pieces [j/N, (j+1)/N] *)
 Definition subpolys (ctrl : list qpt) (N : nat) : list (list qpt) :=
-  map (fun j => sub_ctrl ctrl (inject_Z (Z.of_nat j) / inject_Z (Z.of_nat N))
-                              (inject_Z (Z.of_nat (S j)) / inject_Z (Z.of_nat N))) (seq 0 N).
+  map (fun j => map qred_pt (sub_ctrl ctrl (inject_Z (Z.of_nat j) / inject_Z (Z.of_nat N))
+                                           (inject_Z (Z.of_nat (S j)) / inject_Z (Z.of_nat N)))) (seq 0 N).
 
 Definition len_lo (k : positive) (N : nat) (ctrl : list qpt) : Q :=
   match ctrl with [_; _] => polyline_lo k ctrl | _ => polyline_lo k (inscribed ctrl N) end.
 Definition len_hi (k : positive) (N : nat) (ctrl : list qpt) : Q :=
   match ctrl with
   | [_; _] => polyline_hi k ctrl
-  | _ => fold_right Qplus 0 (map (polyline_hi k) (subpolys ctrl N))
+  | _ => qsumr (map (polyline_hi k) (subpolys ctrl N))
   end.
